@@ -3,9 +3,13 @@
 //! case with the transport outcomes *as they actually happened*) and a trace line `T ...`.
 //! Line protocol: see DESIGN.md Appendix B and extract/driver.ml (which prints the same `T` format).
 
+mod alloc;
 mod hs;
 mod pair;
 mod transport;
+
+#[global_allocator]
+static GLOBAL: alloc::Counting = alloc::Counting;
 
 use bytes::Bytes;
 use std::io::{BufRead, BufWriter, Write};
@@ -200,14 +204,28 @@ pub fn opt_usize(s: &str) -> Option<usize> {
     }
 }
 
+thread_local! {
+    /// (largest single allocation request, peak live bytes) seen inside `read` calls of the current case
+    pub static ALLOC_STATS: std::cell::Cell<(usize, usize)> = const { std::cell::Cell::new((0, 0)) };
+}
+
 /// run socket ops on an established WebSocket; appends `res ev ev | res ev ...` to `out`
 pub fn run_ops_on(ws: &mut WebSocket<Script>, ops: Vec<Op>, mut upto: usize, out: &mut String, first: bool) {
     for (i, op) in ops.into_iter().enumerate() {
         let r = catch_unwind(AssertUnwindSafe(|| match op {
-            Op::Read => match ws.read() {
-                Ok(m) => message_s(&m),
-                Err(e) => error_s(&e),
-            },
+            Op::Read => {
+                alloc::begin();
+                let res = ws.read();
+                let (mx, pk) = alloc::end();
+                ALLOC_STATS.with(|a| {
+                    let (m0, p0) = a.get();
+                    a.set((m0.max(mx), p0.max(pk)));
+                });
+                match res {
+                    Ok(m) => message_s(&m),
+                    Err(e) => error_s(&e),
+                }
+            }
             Op::Write(m) => match ws.write(m) {
                 Ok(()) => "ok".into(),
                 Err(e) => error_s(&e),
@@ -281,7 +299,10 @@ fn run_socket(f: &[&str]) -> Result<(String, String), String> {
         Ok(ws) => ws,
         Err(_) => return Ok((model_line(f, None), "panic:config".into())),
     };
+    ALLOC_STATS.with(|a| a.set((0, 0)));
     run_ops_on(&mut ws, ops, 0, &mut out, true);
+    let (mx, pk) = ALLOC_STATS.with(|a| a.get());
+    out.push_str(&format!(" ## A:{mx}:{pk}"));
     let m = model_line(f, Some(ws.get_ref()));
     Ok((m, out))
 }
